@@ -239,6 +239,153 @@ func vfC10Run(id string, f []string) string {
 	return out
 }
 
+// ------------------------------------------------------------------------------------------
+// connections the server does NOT take for Cloak: a real client whose credential the server rejects (proxy method it
+// does not serve, unknown UID, payload sealed to another server key, stale clock).  The redirect target is a decoy
+// that speaks TLS 1.3 framing of its own: it reads the ClientHello and answers with a ServerHello echoing the
+// legacy session id, ChangeCipherSpec and application-data records (hand-composed here, not by composeReply).
+// The wire image of such a connection must be that ONE TLS conversation: everything the server sends the client
+// is what the decoy sent, byte for byte.
+//
+// input : <id> RDR <chrome|firefox|safari> <badmethod|baduid|wrongkey|late> <seed>
+// output: <id> ok=1 rdr=1 dials=<n> c2s0=<hex> s2c0=<hex> din=<what the decoy received> dout=<what the decoy sent> herr=<client handshake failed 0|1>
+type vfC10Decoy struct {
+	mu    sync.Mutex
+	seed  string
+	dials int
+	in    []byte
+	out   []byte
+}
+
+func vfC10DecoyFlight(sid []byte, seed string) []byte {
+	rec := func(typ byte, body []byte) []byte {
+		return append([]byte{typ, 0x03, 0x03, byte(len(body) >> 8), byte(len(body))}, body...)
+	}
+	sh := []byte{0x02, 0x00, 0x00, 0x76, 0x03, 0x03}
+	sh = append(sh, vfC10Payload("decoy-random:"+seed, 32)...)
+	sh = append(sh, 0x20)
+	sh = append(sh, sid...)
+	sh = append(sh, 0x13, 0x02, 0x00, 0x00, 0x2e)
+	sh = append(sh, 0x00, 0x33, 0x00, 0x24, 0x00, 0x1d, 0x00, 0x20)
+	sh = append(sh, vfC10Payload("decoy-share:"+seed, 32)...)
+	sh = append(sh, 0x00, 0x2b, 0x00, 0x02, 0x03, 0x04)
+	out := rec(0x16, sh)
+	out = append(out, rec(0x14, []byte{0x01})...)
+	out = append(out, rec(0x17, vfC10Payload("decoy-ee:"+seed, 1369))...)
+	out = append(out, rec(0x17, vfC10Payload("decoy-fin:"+seed, 69))...)
+	return out
+}
+
+func (d *vfC10Decoy) Dial(network, address string) (net.Conn, error) {
+	a, b := vfC06Pipe()
+	d.mu.Lock()
+	d.dials++
+	d.mu.Unlock()
+	go func() {
+		hdr := make([]byte, 5)
+		if _, err := io.ReadFull(b, hdr); err != nil {
+			return
+		}
+		body := make([]byte, int(hdr[3])<<8|int(hdr[4]))
+		if _, err := io.ReadFull(b, body); err != nil {
+			return
+		}
+		d.mu.Lock()
+		d.in = append(append(d.in, hdr...), body...)
+		d.mu.Unlock()
+		sid := make([]byte, 32)
+		if len(body) > 39+32 && body[38] == 32 {
+			copy(sid, body[39:39+32])
+		}
+		flight := vfC10DecoyFlight(sid, d.seed)
+		d.mu.Lock()
+		d.out = append(d.out, flight...)
+		d.mu.Unlock()
+		b.Write(flight)
+		buf := make([]byte, 4096)
+		for {
+			n, err := b.Read(buf)
+			d.mu.Lock()
+			d.in = append(d.in, buf[:n]...)
+			d.mu.Unlock()
+			if err != nil {
+				return
+			}
+		}
+	}()
+	return a, nil
+}
+
+func vfC10Redirect(id string, f []string) string {
+	// f: browser reason seed
+	reason, seed := f[1], f[2]
+	uid := vfC10Payload("uid:"+seed, 16)
+	method := "m" + seed
+	if len(method) > 12 {
+		method = method[:12]
+	}
+	now := time.Unix(1700000000, 0)
+	k := vfC06MakeKeys(seed)
+	panel := vfC06NewPanel()
+	srv := vfC06NewServer(k, uid, method, now, seed, panel)
+	decoy := &vfC10Decoy{seed: seed}
+	srv.sta.RedirDialer = decoy
+	cfg := vfC06Cfg{transport: "direct", browser: f[0], encName: "aes-gcm", sid: 0xC10, serverName: "www.example.com",
+		uid: uid, method: method, clientNow: now, seed: seed}
+	ck := k
+	switch reason {
+	case "badmethod":
+		cfg.method = "nosuchmethod"
+	case "baduid":
+		cfg.uid = vfC10Payload("another-uid:"+seed, 16)
+	case "wrongkey":
+		ck = vfC06MakeKeys("another-server:" + seed)
+	case "late":
+		cfg.clientNow = now.Add(-1000 * time.Second)
+	case "none":
+	default:
+		return fmt.Sprintf("%s cfgerr=%q", id, "unknown reason "+reason)
+	}
+	cl, err := vfC06NewClient(ck, cfg)
+	if err != nil {
+		return fmt.Sprintf("%s cfgerr=%q", id, err.Error())
+	}
+	link := vfC06Connect(srv, false)
+	ct := &vfC06Tap{Conn: link.clientEnd}
+	resCh := make(chan error, 1)
+	go func() {
+		_, err := cl.tr.Handshake(ct, cl.auth)
+		resCh <- err
+	}()
+	var herr error
+	select {
+	case herr = <-resCh:
+	case <-time.After(10 * time.Second):
+		herr = fmt.Errorf("client handshake timed out")
+	}
+	// quiescence: nothing new on the tap for a few milliseconds (two writers may be racing for the connection)
+	last, stable := -1, 0
+	for i := 0; i < 400 && stable < 6; i++ {
+		time.Sleep(500 * time.Microsecond)
+		_, wr, _ := link.tap.snapshot()
+		if len(wr) == last {
+			stable++
+		} else {
+			stable, last = 0, len(wr)
+		}
+	}
+	_, wr, writes := link.tap.snapshot()
+	_, cwr, cwrites := ct.snapshot()
+	decoy.mu.Lock()
+	din, dout, dials := append([]byte{}, decoy.in...), append([]byte{}, decoy.out...), decoy.dials
+	decoy.mu.Unlock()
+	ct.Close()
+	vfC06CloseSession(panel, cfg.uid, 0xC10)
+	return fmt.Sprintf("%s ok=1 rdr=1 done=1 est=1 nconn=1 dials=%d name=%s c2s0=%s s2c0=%s w0=%s cw0=%s din=%s dout=%s herr=%s", id, dials,
+		vfC06Hex([]byte("www.example.com")), vfC06Hex(cwr), vfC06Hex(wr), vfC10Lens(writes), vfC10Lens(cwrites), vfC06Hex(din), vfC06Hex(dout),
+		vfC06B(herr != nil))
+}
+
 var _ = io.EOF
 
 func TestVerifC10(t *testing.T) {
@@ -258,6 +405,9 @@ func TestVerifC10(t *testing.T) {
 			}()
 			if f[1] == "RUN" && len(f) == 9 {
 				line = vfC10Run(f[0], f[2:])
+			}
+			if f[1] == "RDR" && len(f) == 5 {
+				line = vfC10Redirect(f[0], f[2:])
 			}
 		}()
 		if line != "" {
